@@ -167,6 +167,7 @@ class Sim:
         self.alloc_expected = []   # multiset of allocator ids for A+ events
         self.outcome = None
         self.leaf_tok_stopped = {}
+        self.destroy_hooks = []    # run when the outer operation state is destroyed (coroutine frames)
 
     def emit(self, s):
         self.out.append(s)
@@ -200,6 +201,11 @@ class Sim:
         if (k, o) in self.obs.fn_throw:
             return ("throw", ("exc", "inj%d" % self.obs.fn_throw[(k, o)]))
         return ("ok", self.obs.fn_ret.get((k, o), -1))
+
+    def op_destroyed(self):
+        hooks, self.destroy_hooks = self.destroy_hooks, []
+        for h in hooks:
+            h()
 
     def choose(self):
         if not self.parked:
@@ -255,6 +261,7 @@ class Sim:
             self.request_stop()
         if self.n_completions == 0:
             self.emit("PENDING")
+        self.op_destroyed()
         self.cur_tag = 0
         self.drive()
 
@@ -295,6 +302,8 @@ class Outer(Node):
             p = "-"
         s.outcome = (ch, p)
         s.emit("O %s %s tag=%d instart=%d" % (ch, p, s.cur_tag, 1 if s.in_start else 0))
+        if s.scn.d.get("dic"):
+            s.op_destroyed()
 
 
 class Leaf(Node):
